@@ -52,6 +52,8 @@ type Case struct {
 	Factors []Factor `json:"factors,omitempty"`
 	// SetTransformEmpty: call SetTransform() with no factors (identity) instead of not calling it.
 	SetTransformEmpty bool `json:"set_transform_empty,omitempty"`
+	// DestAfterTransform: SetDestination is called (again) after SetTransform.
+	DestAfterTransform bool `json:"dest_after_transform,omitempty"`
 	// CopyRetransform: after SetTransform the Generator is copied and the copy is given another
 	// transform (same number of factors) before the original emits its path.
 	CopyRetransform bool `json:"copy_retransform,omitempty"`
@@ -248,6 +250,10 @@ func checkPathData(c Case) error {
 		}
 		if len(affs) > 0 || c.SetTransformEmpty {
 			g.SetTransform(affs...)
+		}
+		if c.DestAfterTransform {
+			// the destination is (re)assigned after the transform was configured
+			g.SetDestination(rec)
 		}
 		if c.CopyRetransform && len(affs) > 0 {
 			// a copy of the Generator (plain assignment) goes its own way with as many other
@@ -555,6 +561,10 @@ func TestGeneratorDialect(t *testing.T) {
 		c.D = render(t, cmds, "generator")
 		if len(c.Factors) > 0 {
 			labels = append(labels, "transform")
+			if rapid.IntRange(0, 3).Draw(t, "destafter") == 0 {
+				c.DestAfterTransform = true
+				labels = append(labels, "SetDestination-after-SetTransform")
+			}
 			if rapid.IntRange(0, 3).Draw(t, "copyretransform") == 0 {
 				c.CopyRetransform = true
 				labels = append(labels, "generator-copied-and-the-copy-retransformed")
@@ -918,10 +928,14 @@ func TestConverterPathsAndFiles(t *testing.T) {
 			case 1:
 				v := ops.F32(rapid.SampledFrom(opacities).Draw(t, "fop"))
 				p.FillOpacity = &v
-				if rapid.IntRange(0, 3).Draw(t, "both") == 0 {
+				if b := rapid.IntRange(0, 4).Draw(t, "both"); b == 0 {
 					w := ops.F32(rapid.SampledFrom(opacities).Draw(t, "op2"))
 					p.Opacity = &w
 					used[float32(w)]++
+				} else if b == 1 {
+					w := ops.F32(1) // opacity present and exactly 1: it still wins over the fill-opacity
+					p.Opacity = &w
+					labels = append(labels, "opacity-1-beside-a-fill-opacity")
 				} else {
 					used[float32(v)]++
 				}
